@@ -76,7 +76,25 @@ impl<'a, P: ?Sized + PathImpl> PathMutImpl<'a, P> {
 		}
 	}
 
+	/// Checks if this is the empty path directly following an authority.
+	///
+	/// Such a path must become the absolute empty path `/` before anything is
+	/// added to it: `//host` followed by `foo` is `//host/foo`.
+	fn needs_root(&self) -> bool {
+		self.follows_authority && self.start > 0 && self.start == self.end
+	}
+
+	/// Turns the empty path into the absolute empty path `/`.
+	fn make_root(&mut self) {
+		replace(self.buffer, self.end..self.end, b"/");
+		self.end += 1;
+	}
+
 	pub fn push(&mut self, segment: &P::Segment) {
+		if self.needs_root() {
+			self.make_root()
+		}
+
 		// Disambiguate if the path is empty and one of the following is true:
 		// - `segment` looks like a scheme and path is a the start.
 		// - `segment` is empty, path is absolute and following an authority.
